@@ -131,6 +131,8 @@ class Sess:
                     n += 1
         return n < limit
 
+    explicit_n = 0
+
     async def send(self, side, prefix=""):
         from asyncfix import FIXMessage
         from asyncfix.errors import FIXConnectionError
@@ -139,7 +141,11 @@ class Sess:
         self.cnt += 1
         ident = f"{prefix}{side.lower()}{self.cnt}"
         try:
-            await self.w.ep[side].send_msg(FIXMessage("D", {11: ident, 55: "X"}))
+            body = {11: ident, 55: "X"}
+            if (self.cnt * 7 + len(ident)) % 5 == 0:
+                body[43] = "N"          # an original transmission saying so explicitly: still a new number
+                self.explicit_n += 1
+            await self.w.ep[side].send_msg(FIXMessage("D", body))
             self.accepted[side].append(ident)
             r = "ok"
         except FIXConnectionError:
